@@ -368,8 +368,10 @@ func WorkerMain(t *testing.T) {
 		}
 		er := execute(t, p, tape, tier)
 		account(er)
+		twice(t, p, tape, tier, er, propID)
 		if selftest {
 			res.Digests = append(res.Digests, er.h.Digest())
+			dumpRun(propID, len(res.Digests), er)
 		}
 		handle(uint64(run), tape, er)
 		if p.Expand != nil {
@@ -384,8 +386,10 @@ func WorkerMain(t *testing.T) {
 				}
 				er2 := execute(t, p, t2, tier)
 				account(er2)
+				twice(t, p, t2, tier, er2, propID)
 				if selftest {
 					res.Digests = append(res.Digests, er2.h.Digest())
+					dumpRun(propID, len(res.Digests), er2)
 				}
 				handle(uint64(run), t2, er2)
 			}
@@ -421,6 +425,35 @@ func WorkerMain(t *testing.T) {
 			os.Remove(out + ".journal")
 		}
 	}
+}
+
+// twice re-executes a tape in the same process and reports a diverging event
+// log (debugging aid for determinism, enabled by VERIF_TWICE=<dir>).
+func twice(t *testing.T, p *Property, tape *Tape, tier string, er execResult, prop string) {
+	d := os.Getenv("VERIF_TWICE")
+	if d == "" {
+		return
+	}
+	er2 := execute(t, p, ReplayTape(tape.Vals, tape.Over), tier)
+	if er2.h.Digest() != er.h.Digest() {
+		n := time.Now().UnixNano()
+		os.WriteFile(filepath.Join(d, fmt.Sprintf("%s-%d-a.txt", prop, n)), []byte(strings.Join(append(er.sc.Describe(), er.h.Render()...), "\n")), 0o644)
+		os.WriteFile(filepath.Join(d, fmt.Sprintf("%s-%d-b.txt", prop, n)), []byte(strings.Join(append(er2.sc.Describe(), er2.h.Render()...), "\n")), 0o644)
+	}
+}
+
+// dumpRun writes the scenario and event log of one execution (selftest
+// debugging aid, enabled by VERIF_DUMP_DIR; VERIF_DUMP_ONLY limits it to a
+// comma-separated list of execution indexes).
+func dumpRun(prop string, idx int, er execResult) {
+	d := os.Getenv("VERIF_DUMP_DIR")
+	if d == "" {
+		return
+	}
+	if only := os.Getenv("VERIF_DUMP_ONLY"); only != "" && !strings.Contains(","+only+",", fmt.Sprintf(",%d,", idx)) {
+		return
+	}
+	os.WriteFile(filepath.Join(d, fmt.Sprintf("%s-%d-%d.txt", prop, idx, os.Getpid())), []byte(strings.Join(append(er.sc.Describe(), er.h.Render()...), "\n")), 0o644)
 }
 
 func overString(ov map[string]int) string {
@@ -666,6 +699,7 @@ func (h *History) Digest() string {
 type rline struct {
 	at    int64
 	actor int
+	sub   int // orders events of one actor class at one instant independently of global arrival order
 	seq   int
 	text  string
 	kind  string
@@ -711,8 +745,22 @@ func (h *History) lines() []rline {
 			}
 		}
 	}
+	// Backend callbacks are ordered by (instant, connection, order within the
+	// connection): Server.Close walks a Go map of connections, so the global
+	// order of callbacks of different connections at one instant is not
+	// deterministic - and not meaningful.
+	perConn := map[int]int{}
 	for _, e := range h.Events {
 		txt := fmt.Sprintf("conn%d sess%d %s(%s)", e.Conn, e.Sess, e.Kind, clip(e.Arg, 80))
+		perConn[e.Conn]++
+		sub := (e.Conn+1)*1000000 + perConn[e.Conn]
+		addSub := func(at int64, kind, text string) {
+			ls = append(ls, rline{at: at, actor: 100, sub: sub, seq: len(ls), text: text, kind: kind})
+		}
+		_ = addSub
+		add = func(at int64, actor int, kind, text string) {
+			ls = append(ls, rline{at: at, actor: 100, sub: sub, seq: len(ls), text: text, kind: kind})
+		}
 		add(e.Begin, 100+e.Seq, "B", txt+" begins")
 		if e.Done {
 			extra := ""
@@ -727,6 +775,9 @@ func (h *History) lines() []rline {
 			}
 			add(e.End, 100+e.Seq, "E", txt+fmt.Sprintf(" ends res=%q%s", e.Res, extra))
 		}
+	}
+	add = func(at int64, actor int, kind, text string) {
+		ls = append(ls, rline{at: at, actor: actor, seq: len(ls), text: text, kind: kind})
 	}
 	for i, a := range h.Admin {
 		add(a.CallAt, classAdmin+i, "A", fmt.Sprintf("admin%d kind=%d called", i, a.Kind))
@@ -743,6 +794,9 @@ func (h *History) lines() []rline {
 		}
 		if ls[i].actor != ls[j].actor {
 			return ls[i].actor < ls[j].actor
+		}
+		if ls[i].sub != ls[j].sub {
+			return ls[i].sub < ls[j].sub
 		}
 		return ls[i].seq < ls[j].seq
 	})
